@@ -23,10 +23,7 @@ Local Open Scope nat_scope.
 Theorem C17_history_refines : forall bits k, 0 < bits -> forall ops,
   run_m bits (2 ^ k) (init_m bits (2 ^ k)) ops = s_run bits (s_init bits) ops
   /\ forall st, wf2 bits k st -> run_m bits (2 ^ k) st ops = s_run bits (abs2 bits k st) ops.
-Proof.
-  intros bits k Hb ops.
-  exact (conj (history_refines bits k Hb ops) (fun st Hst => run_refines bits k Hb ops st Hst)).
-Qed.
+Proof. exact history_refines_both. Qed.
 Print Assumptions C17_history_refines.
 
 (* one step: refinement of every operation, preservation of the invariant, and the contract
@@ -49,10 +46,7 @@ Theorem C17_padding_zero_inv : forall bits k, 0 < bits -> forall ops,
   /\ let st := final_state bits k (init_m bits (2 ^ k)) ops in
      last_word_clean bits k (fst st) /\ last_word_clean bits k (snd st)
      /\ length (fst st) = num_words bits (2 ^ k) /\ length (snd st) = num_words bits (2 ^ k).
-Proof.
-  intros bits k Hb ops.
-  exact (conj (fun st Hst => invariant_along_history bits k Hb ops st Hst) (padding_zero_inv bits k Hb ops)).
-Qed.
+Proof. exact padding_zero_inv_both. Qed.
 Print Assumptions C17_padding_zero_inv.
 
 (* observers on any well-formed array = std::bitset observers of the value it stands for; and the
@@ -68,13 +62,7 @@ Theorem C17_observers_spec : forall bits k, 0 < bits -> forall ws, wf bits k ws 
   /\ (bits <= 64 -> to_ullong_m bits (2 ^ k) (ones (2 ^ k)) (ones 64) ws = s_value (abs bits k ws))
   /\ (forall ws', wf bits k ws' -> words_eqb ws ws' = s_eq (abs bits k ws) (abs bits k ws'))
   /\ (forall ws', wf bits k ws' -> abs bits k ws = abs bits k ws' -> ws = ws').
-Proof.
-  intros bits k Hb ws Hwf.
-  exact (conj (count_spec bits k Hb ws Hwf) (conj (all_spec bits k Hb ws Hwf) (conj (any_spec bits k Hb ws Hwf)
-        (conj (none_spec bits k Hb ws Hwf) (conj (fun z o => to_string_spec bits k Hb ws z o Hwf)
-        (conj (to_ullong_spec bits k Hb ws Hwf) (conj (fun ws' H' => eq_spec bits k Hb ws ws' Hwf H')
-        (fun ws' H' => abs_inj bits k Hb ws ws' Hwf H')))))))).
-Qed.
+Proof. exact observers_spec_all. Qed.
 Print Assumptions C17_observers_spec.
 
 (* constructors.  Integer: every value, bits above min(64, Bits) are dropped.  String: every string /
@@ -92,7 +80,7 @@ Theorem C17_constructors_spec : forall bits k, 0 < bits ->
                    \/ s_of_string bits str pos n zero one = SInvalid
      | _ => False
      end.
-Proof. intros bits k Hb. exact (conj (of_ullong_spec bits k Hb) (of_string_spec bits k Hb)). Qed.
+Proof. exact constructors_spec_all. Qed.
 Print Assumptions C17_constructors_spec.
 
 (* the preconditions on the paths the model treats as total always hold: pos < digits of
@@ -117,7 +105,7 @@ Print Assumptions C17_inner_preconditions.
    number of one bits, which is what the run-time builtin is modelled as, for every word width *)
 Theorem C17_popcount_fallback : forall w x, bnd w x ->
   popcount_fallback (ones w) w x = Some (popcount x) /\ popcount x = bitcount w x.
-Proof. intros w x Hb. exact (conj (popcount_fallback_width w x Hb) (popcount_bitcount w x Hb)). Qed.
+Proof. exact popcount_fallback_both. Qed.
 Print Assumptions C17_popcount_fallback.
 
 (* non-vacuity: the hypotheses are satisfiable and the conclusions non-trivial at widths one below
